@@ -13,7 +13,7 @@ RULE = ("driver family 'respond': 1-2 simulated interfaces (IPv4 / IPv6 / both, 
 
 def run(tier, seed, t0):
     return daemon.run_group(PROP, tier, seed, t0, [("respond", [])], "TraceRespond", "TraceRespond.cfg", PREFIXES,
-                            [("MCResponder", "MCResponder.cfg")], ["C07.probe","C07.announce","C07.twice"], ASSUME, RULE)
+                            [("MCResponder", "MCResponder.cfg")], ["C07.probe","C07.announce","C07.twice","C07.loop-ann2"], ASSUME, RULE)
 
 
 def replay(path, seed):
